@@ -41,7 +41,8 @@ impl Parameters {
         let docs = YamlLoader::load_from_str(&contents).map_err(
             |e| ParameterError::ParseError(e.to_string()))?;
 
-        let doc = &docs[0];
+        let doc = docs.first().ok_or_else(
+            || ParameterError::ParseError("No YAML document found".to_string()))?;
         let params = &doc["opw_kinematics_geometric_parameters"];
         // dof is documented (and written by to_yaml) at the top level
         let dof = doc["dof"].as_i64().or_else(|| params["dof"].as_i64()).unwrap_or(6) as i8;
